@@ -23,3 +23,72 @@ package pubsub
 //@   ensures failed-not-added: lastret((*Topic).validate, 1) != nil ==> calls((*MessageBatch).add) == old(calls((*MessageBatch).add))
 //@   ensures added-once: lastret((*Topic).validate, 1) == nil ==> calls((*MessageBatch).add) == old(calls((*MessageBatch).add)) + 1 &&
 //@        lastarg((*MessageBatch).add, 1) == lastret((*Topic).validate, 0) && result == nil
+
+// ---- topic event handlers (C18) ----
+//
+// Per handler h two ghost sets: evTruth[h] = peers that the event source has told h are in the
+// topic (updated by addToEventLog), evSeen[h] = set obtained by applying the events h has
+// RETURNED so far (updated by pullFromEventLog). The log invariant ties them together.
+//@ ghost var evTruth mmap[ref]mset[string]
+//@ ghost var evSeen mmap[ref]mset[string]
+
+//@ spec fn invLog(h *TopicEventHandler) bool = h.evtLog != nil &&
+//@      (forall p string :: p in h.evtLog ==> h.evtLog[p] == PeerJoin || h.evtLog[p] == PeerLeave) &&
+//@      (forall p string :: !(p in h.evtLog) ==> evTruth[h][p] == evSeen[h][p]) &&
+//@      (forall p string :: p in h.evtLog && h.evtLog[p] == PeerJoin ==> evTruth[h][p] && !evSeen[h][p]) &&
+//@      (forall p string :: p in h.evtLog && h.evtLog[p] == PeerLeave ==> !evTruth[h][p] && evSeen[h][p])
+
+//@ monitor TopicEventHandler.evtLogMx
+//@   protects map(evtLog)
+//@   ghosts evSeen
+//@   invariant log: invLog(self)
+
+// addToEventLog: the coalescing rule. Precondition = the source alternates (a Join only for a
+// peer not currently in, a Leave only for a peer currently in).
+//@ func (*TopicEventHandler).addToEventLog
+//@   property C18
+//@   holds TopicEventHandler.evtLogMx
+//@   requires kind: evt.Type == PeerJoin || evt.Type == PeerLeave
+//@   requires alternates: (evt.Type == PeerJoin) == !evTruth[t][evt.Peer]
+//@   modifies map(t.evtLog), evTruth
+//@   ghost-effect truth: evTruth[t][evt.Peer] == (evt.Type == PeerJoin) &&
+//@        (forall h ref, p string :: h != t || p != evt.Peer ==> evTruth[h][p] == old(evTruth[h][p]))
+//@   ensures fresh-logged: !old(evt.Peer in t.evtLog) ==> evt.Peer in t.evtLog && t.evtLog[evt.Peer] == evt.Type
+//@   ensures opposite-cancels: old(evt.Peer in t.evtLog) && old(t.evtLog[evt.Peer]) != evt.Type ==> !(evt.Peer in t.evtLog)
+//@   ensures others: forall p string :: p != evt.Peer ==> (p in t.evtLog) == old(p in t.evtLog) && t.evtLog[p] == old(t.evtLog[p])
+
+// pullFromEventLog: hands out one logged event and removes exactly it.
+//@ func (*TopicEventHandler).pullFromEventLog
+//@   property C18
+//@   holds TopicEventHandler.evtLogMx
+//@   modifies map(t.evtLog), evSeen
+//@   ghost-effect seen: (result1 ==> evSeen[t][result0.Peer] == (result0.Type == PeerJoin) &&
+//@        (forall h ref, p string :: h != t || p != result0.Peer ==> evSeen[h][p] == old(evSeen[h][p]))) &&
+//@        (!result1 ==> (forall h ref, p string :: evSeen[h][p] == old(evSeen[h][p])))
+//@   ensures from-log: result1 ==> old(result0.Peer in t.evtLog) && result0.Type == old(t.evtLog[result0.Peer]) && !(result0.Peer in t.evtLog)
+//@   ensures only-that: forall p string :: !result1 || p != result0.Peer ==> (p in t.evtLog) == old(p in t.evtLog) && t.evtLog[p] == old(t.evtLog[p])
+//@   ensures alternates: result1 ==> (result0.Type == PeerJoin || result0.Type == PeerLeave) &&
+//@        (result0.Type == PeerJoin) == !old(evSeen[t][result0.Peer])
+//@   ensures starts-with-join: result1 && !old(evSeen[t][result0.Peer]) ==> result0.Type == PeerJoin
+//@   ensures drained: !result1 ==> len(t.evtLog) == 0 && (forall p string :: evTruth[t][p] == evSeen[t][p])
+
+//@ func (*TopicEventHandler).sendNotification
+//@   property C18
+//@   requires kind: evt.Type == PeerJoin || evt.Type == PeerLeave
+//@   requires alternates: (evt.Type == PeerJoin) == !evTruth[t][evt.Peer]
+//@   modifies monitor(TopicEventHandler.evtLogMx), evTruth
+//@   ensures logged-once: calls((*TopicEventHandler).addToEventLog) == old(calls((*TopicEventHandler).addToEventLog)) + 1
+//@   ensures truth: evTruth[t][evt.Peer] == (evt.Type == PeerJoin) &&
+//@        (forall h ref, p string :: h != t || p != evt.Peer ==> evTruth[h][p] == old(evTruth[h][p]))
+//@   ensures released: !held(t.evtLogMx)
+
+// NextPeerEvent returns only events pulled from the log (or the context's error); an event
+// leaves the log only in the call that returns it.
+//@ func (*TopicEventHandler).NextPeerEvent
+//@   property C18
+//@   modifies monitor(TopicEventHandler.evtLogMx)
+//@   loop 1 invariant nothing-pulled: !held(t.evtLogMx) &&
+//@        (calls((*TopicEventHandler).pullFromEventLog) == old(calls((*TopicEventHandler).pullFromEventLog)) || !lastret((*TopicEventHandler).pullFromEventLog, 1))
+//@   ensures event: result1 == nil ==> lastret((*TopicEventHandler).pullFromEventLog, 1) && result0 == lastret((*TopicEventHandler).pullFromEventLog, 0)
+//@   ensures error-no-event: result1 != nil ==> calls((*TopicEventHandler).pullFromEventLog) == old(calls((*TopicEventHandler).pullFromEventLog)) || !lastret((*TopicEventHandler).pullFromEventLog, 1)
+//@   ensures released: !held(t.evtLogMx)
